@@ -67,13 +67,14 @@ def _apply(R, t, d):
 
 
 def cases(rng, budget, widx, nworkers, tier):
+    sm = lambda: tier == "quick" or rng.random() < 0.5      # thorough: half of the bodies from the full families (prisms, bipyramids, general hulls)
     i = widx
     while True:
         ka, kb = PAIRS[i % len(PAIRS)]
         i += 1
         if i % 8 == 0:
-            a = gen.rand_obj(rng, ka, small=True)
-            b = gen.rand_obj(rng, kb, small=True)
+            a = gen.rand_obj(rng, ka, small=sm())
+            b = gen.rand_obj(rng, kb, small=sm())
             # bring b near a so that overlaps are frequent, then rotate both independently
             ca, cb = K.centroid(a[1]), K.centroid(b[1])
             sh = tuple(float(ca[j] - cb[j]) + rng.uniform(-1.0, 1.0) for j in range(3))
@@ -81,7 +82,7 @@ def cases(rng, budget, widx, nworkers, tier):
             b2 = _apply(_rot(rng), sh, b)
             yield {"a": a2, "b": b2, "label": "rotated", "ls": rng.getrandbits(30), "float": True}
             continue
-        (a, b), label = gen.body_pair(rng, ka, kb, small=True) if (ka, kb) != ("PH", "PG") else gen.gen_pair(rng, ka, kb, small=True)
+        (a, b), label = gen.body_pair(rng, ka, kb, small=sm()) if (ka, kb) != ("PH", "PG") else gen.gen_pair(rng, ka, kb, small=sm())
         yield {"a": a, "b": b, "label": label, "ls": rng.getrandbits(30)}
 
 
